@@ -509,6 +509,18 @@ def _r148(ck, prog, cfg):
                 wrote = 1
             if any(re.search(r"Serializer::serialize_unit_struct$", c) for c in calls):
                 wrote = 0
+            # ... and writes each of them on every path: `#[serde(skip_serializing_if = ..)]` turns a field write into a branch
+            # (serialize_field / skip_field); a positional format (bincode: WAL, segments, checkpoints) still reads the field back
+            fw = [b for b, t in f.calls() if re.search(r"Serialize(Struct|TupleStruct)::serialize_field$", callee(t))]
+            ends = [b for b, t in f.calls() if re.search(r"Serialize(Struct|TupleStruct)::end$", callee(t))]
+            skips = [t["ln"] for _, t in f.calls() if re.search(r"Serialize(Struct|TupleStruct)::skip_field$", callee(t))]
+            cond = [b for b in fw if ends and not all(f.dominates(b, e) for e in ends)]
+            if skips or cond:
+                n += 1
+                ck.bad("R14.8", "%s:serialize-unconditional%s" % (m.group(1).rsplit("::", 1)[-1], _tag(cfg)),
+                       "the derived Serialize of %s writes a field only under a condition (skip_serializing_if): the self-describing gossip format "
+                       "copes, but the positional encodings (bincode: WAL entries, segments, checkpoints) decode the remaining bytes one field off - "
+                       "the record validates and then fails to decode, or decodes to another value" % m.group(1).rsplit("::", 1)[-1], f.where())
             n += 1
             short = m.group(1).rsplit("::", 1)[-1]
             ck.check(wrote == len(fields), "R14.8", "%s:serialize-covers-all-fields%s" % (short, _tag(cfg)),
